@@ -43,6 +43,11 @@ VOUCHED_TIME = KaniUnit(
                 "held by a writer that never releases it) may land: snapshot still returns a published pair, never panics, and "
                 "never reaches the blocking Mutex::lock (stubbed to fail)", kind="bounded",
                 bound="at most {W} interfering writes per snapshot call", covers=2, timeout=1500, mod="atomic_base_time", unwind_is_property_in="AtomicBaseTime::snapshot"),
+        Harness("c18_snapshot_with_real_writer_cut_off_at_every_store", ["C18"], "AtomicBaseTime::{advance_once,snapshot}",
+                "the REAL writer (advance_once) run from any quiescent state and cut off before its (k+1)-th atomic store, k = 0..3, "
+                "holding the lock for good: a lone snapshot() completes in one pass, never panics, never touches the lock, and returns a "
+                "pair that was published as a unit -- the old one, or the new one only after the writer's commit (its last store)",
+                kind="proof", covers=3, timeout=900, mod="atomic_base_time", unwind_is_property_in="AtomicBaseTime::snapshot"),
         Harness("c18_try_update_never_blocks", ["C18"], "AtomicBaseTime::try_update",
                 "never reaches the blocking Mutex::lock, lock held or free, poison flag (where the code asks for it through is_poisoned) "
                 "arbitrary; cannot succeed while another writer holds the lock",
